@@ -288,3 +288,72 @@ def match_known(known, prop, oracle, scen, r):
             continue
         return k
     return None
+
+
+# ---- reach: which instrumented memory-access sites of the library did the runs execute? ----
+def reach_sites(binp):
+    """[(return address, repo-relative file, function, line)] for every compiler-hook call site whose
+    source is in the repository; cached next to the binary."""
+    import re
+    cache = binp + '.sites.json'
+    try:
+        if os.path.getmtime(cache) >= os.path.getmtime(binp):
+            return [tuple(x) for x in json.load(open(cache))]
+    except OSError:
+        pass
+    repo = os.path.realpath(REPO)
+    dis = subprocess.run(['objdump', '-d', '--no-show-raw-insn', binp], capture_output=True, text=True).stdout
+    rets = []
+    prev_call = False
+    for ln in dis.splitlines():
+        m = re.match(r'\s*([0-9a-f]+):\s+(\S+)\s*(.*)', ln)
+        if not m:
+            prev_call = False
+            continue
+        if prev_call:
+            rets.append(int(m.group(1), 16))
+        prev_call = m.group(2).startswith('call') and ('<__tsan_' in m.group(3) or '<fiber_verif_dwcas' in m.group(3)) and 'func_e' not in m.group(3)
+    out = []
+    if rets:
+        al = subprocess.run(['addr2line', '-f', '-e', binp] + [hex(r - 1) for r in rets], capture_output=True, text=True).stdout.splitlines()
+        for i, r in enumerate(rets):
+            fn, loc = al[2 * i], al[2 * i + 1].split(' ')[0]
+            f, _, line = loc.rpartition(':')
+            f = os.path.realpath(f) if f.startswith('/') else f
+            if f.startswith(repo + '/') and line.isdigit():
+                out.append((r, f[len(repo) + 1:], fn, int(line)))
+    try:
+        json.dump(out, open(cache, 'w'))
+    except OSError:
+        pass
+    return out
+
+
+def reach_merge(acc, binp, mapfile):
+    """acc: {(file, func): {line: reached}}; a source site counts as reached if any compiled copy of it was"""
+    try:
+        cov = open(mapfile, 'rb').read()
+    except OSError:
+        cov = b''
+    for r, f, fn, line in reach_sites(binp):
+        t = acc.setdefault((f, fn), {})
+        t[line] = t.get(line, False) or (r < len(cov) and cov[r] == 1)
+    return acc
+
+
+def reach_summary(acc):
+    byfile = {}
+    never = []
+    for (f, fn), t in sorted(acc.items()):
+        tot = len(t)
+        hit = sum(1 for v in t.values() if v)
+        b = byfile.setdefault(f, [0, 0])
+        b[0] += hit
+        b[1] += tot
+        if hit == 0:
+            never.append('%s:%s' % (f, fn))
+    H = sum(b[0] for b in byfile.values())
+    T = sum(b[1] for b in byfile.values())
+    return {'source_sites_reached': H, 'source_sites_in_linked_library': T,
+            'per_file_reached_of_total': {f: '%d/%d' % (b[0], b[1]) for f, b in sorted(byfile.items()) if b[0]},
+            'what': 'a site is one load, store or atomic operation of libfiber source as compiled for the simulator; reached = executed by at least one run of this check'}
